@@ -13,10 +13,15 @@ CONSTANT Fuel
 Rec == ndJsonDeserialize(IOEnv.TRACE)
 GoesWrong == {"TypeError", "AttributeError", "NameError", "UnboundLocalError"}
 
+\* the reference result: the evaluator on the abstract syntax, or - for the forms given as text (spec/MC_Forms.tla) - the lines the
+\* specification computed for them (out = <<"<any>">> : behaviour not compared)
+M(o) == IF "expect" \in DOMAIN o
+        THEN [out |-> o.expect, status |-> IF o.expect = <<"<any>">> THEN "unsupported:not-compared" ELSE "ok", cat |-> IF o.expect = <<"<any>">> THEN "skip" ELSE "ok"]
+        ELSE Run(o.prog, Fuel)
 Same(m, o) == /\ o.out = m.out
               /\ (IF m.cat = "ok" THEN o.exc = "" ELSE o.exc = m.status)
 
-C01(o) == LET m == Run(o.prog, Fuel) IN
+C01(o) == LET m == M(o) IN
           IF ~o.off.acc /\ ~o.on.acc THEN "skip:rejected"
           ELSE IF o.off.acc # o.on.acc THEN "skip:verdict-differs"            \* C11's business
           ELSE IF m.cat = "skip" THEN "skip:" \o m.status
@@ -33,6 +38,6 @@ C04(o) == IF ~o.off.acc /\ ~o.on.acc THEN "skip:rejected"
 VARIABLE r
 Init == r \in 1..Len(Rec)
 Next == UNCHANGED r
-Report == LET o == Rec[r] m == Run(o.prog, Fuel) IN
+Report == LET o == Rec[r] m == M(o) IN
           PrintT("@@" \o ToJson([id |-> o.id, c01 |-> C01(o), c04 |-> C04(o), model |-> [out |-> m.out, status |-> m.status, cat |-> m.cat]]))
 =====================================================================================
